@@ -16,9 +16,11 @@
 import importlib
 import inspect
 import json
+import os
 import pkgutil
 import socket as real_socket
 import types
+import zlib
 from fractions import Fraction
 
 from lib import frame, fletcher
@@ -95,9 +97,27 @@ def show_result(r):
     return f'{r.CID.cls}/{r.CID.id}:{tag}:{bytes(r.data).hex()}'
 
 
+RETURNED = []      # what earlier requests of the scenario returned, kept alive
+
+
 def call(s, kind, req):
+    """one request; what it returns is kept, marked and scribbled on, as a caller may: a later result that is one of these
+    objects (or carries the mark) was not decoded after the later request's transmission"""
     try:
-        return show_result({'set': s.set, 'mga': s.set_mga, 'poll': s.poll, 'faf': s.fire_and_forget}[kind](req))
+        r = {'set': s.set, 'mga': s.set_mga, 'poll': s.poll, 'faf': s.fire_and_forget}[kind](req)
+        out = show_result(r)
+        if r is not None:
+            if any(r is q for q in RETURNED) or getattr(r, 'seen_by_caller', False):
+                out += ':AN-EARLIER-RESULT-OBJECT'
+            RETURNED.append(r)
+            try:
+                r.seen_by_caller = True
+                for it in list(getattr(r.f, '_fields', {}).values())[:3]:
+                    if isinstance(it.value, int):
+                        it.value ^= 1
+            except Exception:
+                pass
+        return out
     except realenv.CaseTimeout:
         raise
     except Runaway:
@@ -241,6 +261,8 @@ def check_result(kind, cls_, id_, resp_tag, result, stream):
         return None
     if result.startswith('EXC') or result == 'TIMEOUT':
         return 'the request did not return a result or nothing: ' + result
+    if result.endswith(':AN-EARLIER-RESULT-OBJECT'):
+        return 'the returned object is one that an earlier request had already returned: it was decoded before this transmission'
     cid, tag, h = result.split(':')
     rc, ri = map(int, cid.split('/'))
     pl = bytes.fromhex(h)
@@ -459,6 +481,7 @@ class Link:
         self.pending = sorted(pending, key=lambda e: e[0])      # stable: arrivals of one instant keep their order
         self.buf = bytearray(buffered)
         self.sent, self.tx_trace = [], []
+        self.rates = []                 # tty: the bit rate the port was at for each transmission
         self.cur = req_index
         self.attempt = 0
 
@@ -572,6 +595,7 @@ class LinkSerial(realenv.Serial):
 
     def write(self, data):
         self.log.append(('write', bytes(data)))
+        self.link.rates.append(self._baud)
         return len(data) if self.link.on_tx(data) else max(0, len(data) - 1)
 
     def reset_input_buffer(self):
@@ -584,7 +608,7 @@ def make_tty(link):
 
     class TtySrv(Traced, tty.GnssUBlox):
         pass
-    s = TtySrv('/dev/ttyS3', 115200)
+    s = TtySrv(*ctor_args(json.dumps(link.sc['reqs'][:1])))
     port = LinkSerial()
     port.link = link
     s.serial_port = port
@@ -682,13 +706,16 @@ def make_gpsd(link):
     return s
 
 
-def new_server(sc, **kw):
-    FrameFactory.destroy()
+def new_server(sc, fresh_factory=True, **kw):
+    if fresh_factory:
+        FrameFactory.destroy()
     link = Link(sc, **kw)
     backend = sc.get('backend', 'base')
     t = CLK.ticks
     s = {'base': BufSrv, 'tty': make_tty, 'gpsd': make_gpsd}[backend](link)
     s.setup()
+    if sc.get('baud') and backend == 'tty':
+        s.set_baudrate(sc['baud'])      # the application switched the line speed after opening the port
     CLK.ticks = t                       # opening the port / the gpsd handshake is not part of the scenario
     s.set_retries(sc['retries'])
     s.set_retry_delay(sc['delay'])
@@ -702,14 +729,30 @@ def req_of(r):
 
 def run_sequence(sc):
     CLK.ticks = T0
+    RETURNED.clear()
     s = new_server(sc)
-    outs, starts, per_req = [], [], []
+    other = None
+    if sc.get('bystander'):
+        # a second server object in the same process (another receiver), busy between the requests of the first: one request
+        # answered at once, the next not at all, and so on.  Nothing of it may show in what the first server does.
+        osc = {'retries': 0, 'delay': 125, 'chunk': 128, 'timeout': 256, 'backend': 'tty' if sc.get('backend') == 'tty' else 'base',
+               'reqs': [{'kind': 'set', 'cid': [6, 1], 'payload': '0102', 'resp': '0', 'tx': [True], 'timelines': [[(1, frame(5, 1, [6, 1]).hex())]]},
+                        {'kind': 'set', 'cid': [6, 0x24], 'payload': '', 'resp': '0', 'tx': [True], 'timelines': [[(3, b'\xb5\x62\x05\x01\x02'.hex())]]},
+                        {'kind': 'poll', 'cid': [10, 9], 'payload': '', 'resp': '0', 'tx': [True], 'timelines': [[(2, frame(10, 9, b'\x01\x02\x03').hex())]]}]}
+        other = new_server(osc, fresh_factory=False)
+    outs, starts, per_req, ends = [], [], [], []
     keeps = sc.get('backend') == 'gpsd'     # the gpsd back end has no way to drop what its socket has buffered (R-gpsd-flush)
     for i, r in enumerate(sc['reqs']):
+        if other is not None:
+            k = i % len(other.link.sc['reqs'])
+            other.link.begin(k)
+            call(other, other.link.sc['reqs'][k]['kind'], req_of(other.link.sc['reqs'][k]))
         s.link.arrive()
         starts.append((CLK.ticks, list(s.link.pending), len(s.sent), len(s.rx_trace), len(s.calls), bytes(s.link.buf) if keeps else b''))
         s.link.begin(i)
         outs.append(call(s, r['kind'], req_of(r)))
+        ends.append(CLK.ticks)
+    s.ends = ends
     for i in range(len(sc['reqs'])):
         a = starts[i][2]
         b = starts[i + 1][2] if i + 1 < len(starts) else len(s.sent)
@@ -725,7 +768,7 @@ def run_alone(sc, i, start):
     s = new_server(sc, req_index=i, pending=pending, buffered=start[5])
     s.link.begin(i)
     out = call(s, sc['reqs'][i]['kind'], req_of(sc['reqs'][i]))
-    return out, list(s.sent)
+    return out, list(s.sent), list(s.link.rates)
 
 
 def real_seqs(line):
@@ -733,7 +776,7 @@ def real_seqs(line):
     s, outs, starts, per_req = run_sequence(sc)
     ok_bytes = all(x == frame(*r['cid'], bytes.fromhex(r['payload'])) for r, sent in zip(sc['reqs'], per_req) for x in sent)
     return (f'{";".join(outs)} sent={len(s.sent)} per={",".join(str(len(x)) for x in per_req)} nrx={len(s.rx_trace)} '
-            f't={CLK.ticks - T0} calls={s.calls} same={"true" if ok_bytes else "false"}')
+            f't={sum(e - st[0] for e, st in zip(s.ends, starts))} calls={s.calls} same={"true" if ok_bytes else "false"}')
 
 
 def model_line_seqs(line):
@@ -751,10 +794,16 @@ def oracles_seqs(line, real_out):
     s, outs, starts, per_req = run_sequence(sc)
     # C10: in sequence = alone on a fresh server
     bad = None
+    RETURNED.clear()
     for i, r in enumerate(sc['reqs']):
-        alone, sent = run_alone(sc, i, starts[i])
+        alone, sent, rates = run_alone(sc, i, starts[i])
+        a = starts[i][2]
+        in_seq_rates = s.link.rates[a:a + len(per_req[i])]
         if (alone, sent) != (outs[i], per_req[i]):
             bad = f'request {i} ({r["kind"]} {r["cid"]}): in sequence {outs[i][:80]} after {len(per_req[i])} transmissions, alone {alone[:80]} after {len(sent)}'
+            break
+        if rates != in_seq_rates:
+            bad = f'request {i} ({r["kind"]} {r["cid"]}): in sequence transmitted at {in_seq_rates} bit/s, alone at {rates}'
             break
     recs.append({'prop': 'C10', 'ok': bad is None, 'expected': 'each request as on a freshly set-up server facing the same receiver behaviour',
                  'observed': bad or 'equal', 'what': 'a request\'s outcome does not depend on earlier requests or traffic'})
@@ -770,8 +819,7 @@ def oracles_seqs(line, real_out):
         resp_tag = ('resp' + r['resp']) if r['resp'].isdigit() else r['resp']
         w = check_result(r['kind'], r['cid'][0], r['cid'][1], resp_tag, outs[i], stream)
         why4 = why4 or (w and f'request {i}: {w}')
-        t0 = starts[i][0]
-        t1 = starts[i + 1][0] if i + 1 < len(starts) else CLK.ticks
+        t0, t1 = starts[i][0], s.ends[i]
         bound = time_bound_ticks(r['kind'], r['cid'][0], sc['retries'], sc['delay'], tmax)
         nsent = len(per_req[i])
         if r['kind'] == 'faf':
@@ -965,7 +1013,14 @@ def gen_sequence(rng):
                      'tx': [rng.random() < 0.88 for _ in range(retries + 1)], 'timelines': timelines})
         if kind == 'poll':
             earlier.append((cls_, id_, minlen))
-    return {'retries': retries, 'delay': delay, 'chunk': chunk, 'timeout': timeout, 'backend': pick_backend(rng, chunk, timeout), 'reqs': reqs}
+        if rng.random() < 0.15 and len(reqs) < 6:
+            reqs.append(json.loads(json.dumps(reqs[-1])))      # the same request once more, the receiver answering byte for byte the same
+    sc = {'retries': retries, 'delay': delay, 'chunk': chunk, 'timeout': timeout, 'backend': pick_backend(rng, chunk, timeout), 'reqs': reqs}
+    if sc['backend'] == 'tty' and rng.random() < 0.5:
+        sc['baud'] = rng.choice(BAUDS)          # the line speed was switched after the port was opened
+    if rng.random() < 0.2:
+        sc['bystander'] = True
+    return sc
 
 
 def gen_seqs(rng, n, profile):
@@ -1067,9 +1122,13 @@ def gen_level(rng, n, profile):
     from comp_codec import CLASSES, payload_for, wellformed
     import comp_parsers
     # parsing at DEBUG: with and without a filter (a parser that was never given one), every kind of stream
-    for ln in comp_parsers.gen_ubx(rng, max(30, n // 2), 'mixed'):
+    for ln in comp_parsers.gen_ubx1(rng, max(30, n // 2), "mixed"):
+        if rng.random() < 0.3:
+            ln = comp_parsers.with_containers(rng, ln)
         yield 'level' + (ln if rng.random() < 0.6 else 'ubx|' + ';'.join(o for o in ln.split('|', 1)[1].split(';') if o[0] not in 'FS'))
-    for ln in comp_parsers.gen_nmea(rng, max(10, n // 6), 'chunks'):
+    for ln in comp_parsers.gen_nmea1(rng, max(10, n // 6), "chunks"):
+        if rng.random() < 0.3:
+            ln = comp_parsers.with_containers(rng, ln)
         yield 'level' + ln
     for ln in gen_scan(rng, max(20, n // 4), 'scan'):
         yield 'level' + ln
@@ -1107,17 +1166,27 @@ def gen_level(rng, n, profile):
 # =====================================================================================================
 # serial back end: _transmit, _recover, scan
 # =====================================================================================================
-def tty_server():
+BAUDS = [4800, 9600, 19200, 38400, 57600, 115200, 230400, 921600]
+TTY_NAMES = ['/dev/gnss0', '/dev/ttyS3', '/dev/ttyACM0', 'COM7', '/dev/serial/by-id/usb-u-blox_AG_-_www.u-blox.com_u-blox_GNSS_receiver-if00']
+
+
+def ctor_args(line):
+    """what the object is constructed with is no part of a line; it varies with the line all the same (and repeats on a replay)"""
+    h = zlib.crc32(line.encode())
+    return TTY_NAMES[(h >> 8) % len(TTY_NAMES)], BAUDS[h % len(BAUDS)]
+
+
+def tty_server(line=''):
     import ubxlib.server_tty as tty
     realenv.patch_time(tty)
-    s = tty.GnssUBlox('/dev/gnss0', 115200)
+    s = tty.GnssUBlox(*ctor_args(line))
     return s
 
 
 def real_tty(line):
     p = line.split('|')
     try:
-        s = tty_server()
+        s = tty_server(line)
         port = s.serial_port
         if p[1] == 'transmit':
             s.setup()
@@ -1183,7 +1252,7 @@ def real_scan(line):
         d, b = e.split(':')
         evs.append((int(d), None if b == '-' else int(b)))
     try:
-        s = tty_server()
+        s = tty_server(line)
         s.setup()
         s.serial_port.script = evs
         s.serial_port.j = 0
@@ -1202,7 +1271,7 @@ def real_scanseq(line):
     _, dirty, scans = line.split('|')
     out = []
     try:
-        s = tty_server()
+        s = tty_server(line)
         s.setup()
         if dirty:
             s.parser.process(bytes.fromhex(dirty))
@@ -1515,12 +1584,34 @@ def rand_json(rng, depth=0):
     return d
 
 
+def names_on_this_machine():
+    """device names are names: gpsd's, not this machine's.  Some of the names used do exist here all the same - as a symbolic
+    link (a udev alias and its node), a file, a directory - and that must not make any difference"""
+    import lib
+    out = ['/dev/stdin', '/dev/fd', '/dev/null', '/proc/self/exe', '/tmp', '.']
+    d = os.path.join(lib.SCRATCH, 'dev')
+    try:
+        os.makedirs(d, exist_ok=True)
+        node, alias = os.path.join(d, 'ttyACM0'), os.path.join(d, 'gnss0')
+        if not os.path.exists(node):
+            open(node, 'w').close()
+        if not os.path.islink(alias):
+            os.symlink('ttyACM0', alias)
+        out += [alias, node]
+    except OSError:
+        pass
+    return out
+
+
+HERE = names_on_this_machine()
+
+
 def gen_gpsd(rng, n, profile):
-    devs = ['/dev/a', '/dev/b', '/dev/gnss0', '/dev/ttyS3', '/dev/ttyACM0', '/dev/ttyACM10', '/dev/ab']
+    devs = ['/dev/a', '/dev/b', '/dev/gnss0', '/dev/ttyS3', '/dev/ttyACM0', '/dev/ttyACM10', '/dev/ab'] + HERE
     for _ in range(n):
         # requested names include proper prefixes, substrings and concatenations of listed ones
         want = rng.choice([None, None, '/dev/b', '/dev/zz', '/dev/a', '/dev/ttyACM1', '/dev/gnss', 'dev', '/dev/ttyACM0', 'a', '/dev/a/dev/b',
-                           '/dev/gnss0 ', '0', '/'])
+                           '/dev/gnss0 ', '0', '/'] + HERE[-2:] * 2 + HERE[:3])
         chunks = []
         for _ in range(rng.randrange(1, 5)):
             if rng.random() < .1:
@@ -1628,9 +1719,9 @@ def oracles_gpsdsetup(line, real_out):
 
 
 def gen_gpsdsetup(rng, n):
-    devs = ['/dev/a', '/dev/b', '/dev/gnss0', '/dev/ttyACM0', '/dev/ttyACM10']
+    devs = ['/dev/a', '/dev/b', '/dev/gnss0', '/dev/ttyACM0', '/dev/ttyACM10'] + HERE[-2:] + HERE[:2]
     for _ in range(n):
-        want = rng.choice([None, None, '/dev/b', '/dev/zz', '/dev/a', '/dev/ttyACM1'])
+        want = rng.choice([None, None, '/dev/b', '/dev/zz', '/dev/a', '/dev/ttyACM1'] + HERE[-2:] + HERE[:2])
         chunks = []
         for _ in range(rng.randrange(1, 4)):
             toks = []
